@@ -83,6 +83,9 @@ def _after_broadcast(st, t):
         st.stored[t.txid] = _snapshot(t)
         st.sent.append(t.txid)
         st.flags.add('broadcast')
+        if not hasattr(st, 'objects'):
+            st.objects = []
+        st.objects.append((t.txid, t))
 
 
 def apply_op(ctx, st, op, case):
@@ -109,9 +112,26 @@ def apply_op(ctx, st, op, case):
                 k_acc = w.new_key(account_id=a.account_id)
                 w.utxos_update(account_id=a.account_id)
                 st.flags.add('multi_account')
+                if not hasattr(st, 'acc_keys'):
+                    st.acc_keys = {}
+                st.acc_keys[a.account_id] = k_acc
                 if op.get('fundable'):
                     # later utxo_add operations may name this key of the new account
                     st.keys.append(k_acc)
+        elif name == 'pay_other_account':
+            # a payment from the default account to a key of another account of the same wallet. The library books the
+            # transaction, with all its outputs, under the paying account (the statement does not say which account
+            # such an output belongs to, so the per-account key sums are not compared afterwards); the receiving KEY
+            # stays what it is: a key of its own account, at its own path
+            others = sorted(getattr(st, 'acc_keys', {}).items())
+            if others:
+                a, k_acc = others[op.get('pick', 0) % len(others)]
+                bal = int(w.balance())
+                t = w.send_to(k_acc.address, max(1000, bal * op['num'] // op['den']), broadcast=True,
+                              min_confirms=op.get('min_confirms', 1))
+                _after_broadcast(st, t)
+                st.cross_account = True
+                st.flags.add('paid_other_account')
         elif name == 'sweep_account':
             # everything a NON-default account owns is swept to a foreign address and broadcast
             accs = [a for a in getattr(st, 'accounts', [0]) if a != 0]
@@ -231,9 +251,23 @@ def apply_op(ctx, st, op, case):
             # wallet database (store()); whatever the wallet makes of it, its three views stay equal
             bal = int(w.balance())
             if bal > 3000:
-                t = w.send_to(_foreign_addr(op.get('key', 0)), max(1000, bal * op['num'] // op['den']), broadcast=False,
-                              min_confirms=op.get('min_confirms', 1))
-                t.store()
+                amount = max(1000, bal * op['num'] // op['den'])
+                if op.get('unsigned_first'):
+                    # ... or in three steps: created unsigned and saved, signed later, saved again. What is read back
+                    # from then on is the transaction as it was saved last
+                    t = w.transaction_create([(_foreign_addr(op.get('key', 0)), amount)],
+                                             min_confirms=op.get('min_confirms', 1))
+                    t.store()
+                    t.sign()
+                    t.store()
+                    if not hasattr(st, 'drafts'):
+                        st.drafts = {}
+                    st.drafts[t.txid] = _snapshot(t)
+                    st.flags.add('draft_stored_unsigned_then_signed')
+                else:
+                    t = w.send_to(_foreign_addr(op.get('key', 0)), amount, broadcast=False,
+                                  min_confirms=op.get('min_confirms', 1))
+                    t.store()
                 st.flags.add('draft_stored')
         elif name == 'restore':
             # a stored sent transaction is read back from the database and written again (store(), or send() as a
@@ -247,6 +281,18 @@ def apply_op(ctx, st, op, case):
                 else:
                     t.store()
                 st.flags.add('reloaded_transaction_stored_again')
+        elif name == 'resend_object':
+            # the transaction OBJECT of an earlier send (not a copy read back from the database) is sent / stored once
+            # more, as a caller retrying a broadcast does: nothing changes - outputs of it that later transactions
+            # consumed stay spent
+            objs = [(x, o_) for x, o_ in getattr(st, 'objects', []) if x in st.stored and o_.hdwallet is st.w]
+            if objs:
+                txid, t = objs[op['pick'] % len(objs)]
+                if op.get('how') == 'send':
+                    t.send(broadcast=True)
+                else:
+                    t.store()
+                st.flags.add('sent_object_sent_again')
         elif name == 'delete':
             if st.stored:
                 if 'last' in op:
@@ -315,7 +361,7 @@ def check_invariants(ctx, st, case, step):
             k_a = sum(k.balance for k in st.w.keys(account_id=a))
         except Exception as e:
             bad('observe.raises', 'reading keys(account_id=%d) raised %r' % (a, e))
-        if k_a != b_a:
+        if k_a != b_a and not getattr(st, 'cross_account', False):
             bad('I2.account_keys_balance', 'balance(account_id=%d) %r != sum of the balances of that account\'s keys %r'
                 % (a, b_a, k_a))
     if per_key != total:
@@ -324,6 +370,23 @@ def check_invariants(ctx, st, case, step):
                  kf='C08-keys-balance-stale-in-updating-object')
     if per_key2 != total:
         bad('I2.key_balance_method', 'sum(key(id).balance()) %r != sum(utxos()) %r' % (per_key2, total))
+    # I6: the key records themselves - every key stays a key of the account its path names (read from the database
+    # file, not through the wallet object)
+    if len(accounts) > 1:
+        import sqlite3
+        try:
+            con = sqlite3.connect('file:%s?mode=ro' % st.path, uri=True)
+            try:
+                rows = con.execute('select id, path, account_id from keys where wallet_id = ? and depth = 5',
+                                   (st.w.wallet_id,)).fetchall()
+            finally:
+                con.close()
+        except Exception as e:
+            raise HarnessError('reading the keys table raised %r' % e)
+        for kid, kpath, kacc in rows:
+            parts = (kpath or '').split('/')
+            if len(parts) == 6 and parts[3].endswith("'") and parts[3][:-1].isdigit() and kacc != int(parts[3][:-1]):
+                bad('I6.key_account', 'key %d at %s is recorded as a key of account %r' % (kid, kpath, kacc))
     listed = set((u['txid'], u['output_n']) for u in us)
     if len(listed) != len(us):
         bad('I3.duplicate_utxo', 'utxos() lists an outpoint twice')
@@ -332,11 +395,14 @@ def check_invariants(ctx, st, case, step):
             bad('I3.spent_listed', 'outpoint %s:%d consumed by stored sent transaction %s is listed as unspent' %
                 (outp[0][:12], outp[1], txid[:12]))
     # I4: stored transactions reload identically
-    for txid, snap in st.stored.items():
+    drafts = getattr(st, 'drafts', {})
+    for txid, snap in list(st.stored.items()) + [(k_, v_) for k_, v_ in drafts.items() if k_ not in st.stored]:
         try:
             t = st.w.transaction(txid)
         except Exception as e:
             bad('I4.reload.raises', 'transaction(%s) raised %r' % (txid[:12], e))
+        if t is None and txid not in st.stored:
+            continue            # (an unsent draft may be dropped again by the wallet, e.g. with the unconfirmed ones)
         if t is None:
             bad('I4.missing', 'stored transaction %s not found' % txid[:12])
         try:
@@ -446,10 +512,15 @@ def _strategy(ctx):
                                'all': st.sampled_from([False, True, True])}),
         st.just({'op': 'remove_unconfirmed'}),
         st.fixed_dictionaries({'op': st.just('store_draft'), 'key': st.integers(0, 5), 'num': st.sampled_from([1, 1, 3]),
-                               'den': st.sampled_from([4, 10]), 'min_confirms': st.sampled_from([0, 1])}),
+                               'den': st.sampled_from([4, 10]), 'min_confirms': st.sampled_from([0, 1]),
+                               'unsigned_first': st.booleans()}),
         st.fixed_dictionaries({'op': st.just('restore'), 'pick': st.integers(0, 3), 'how': st.sampled_from(['store', 'send'])}),
         st.fixed_dictionaries({'op': st.just('restore'), 'pick': st.just(0), 'how': st.sampled_from(['store', 'send'])}),
+        st.fixed_dictionaries({'op': st.just('resend_object'), 'pick': st.integers(0, 3), 'how': st.sampled_from(['store', 'send'])}),
+        st.fixed_dictionaries({'op': st.just('resend_object'), 'pick': st.just(0), 'how': st.sampled_from(['store', 'send'])}),
         st.just({'op': 'new_account'}), st.just({'op': 'new_account', 'fundable': True}),
+        st.fixed_dictionaries({'op': st.just('pay_other_account'), 'pick': st.integers(0, 2),
+                               'num': st.integers(1, 9), 'den': st.just(10), 'min_confirms': st.sampled_from([0, 1])}),
         st.fixed_dictionaries({'op': st.just('sweep_account'), 'pick': st.integers(0, 3)}),
         st.just({'op': 'reopen'}), st.just({'op': 'second_reader'}),
     )
@@ -478,8 +549,20 @@ def _strategy(ctx):
     accounts = st.tuples(add_last, add_last).map(
         lambda t: [{'op': 'new_account'}, {'op': 'new_key'}, t[0], {'op': 'new_account'}, {'op': 'new_key'}, t[1],
                    {'op': 'sweep_account', 'pick': 1}])
+    # ... and a key of the second account is paid from the first account
+    pay_other = st.tuples(st.integers(0, 1), st.integers(1, 5)).map(
+        lambda t: [{'op': 'new_account'}, {'op': 'pay_other_account', 'pick': t[0], 'num': t[1], 'den': 10,
+                                           'min_confirms': 0}, {'op': 'reopen'}])
+    # directed prefix: outputs of a sent transaction are spent by later ones, then the FIRST transaction object is sent /
+    # stored again
+    resend = st.tuples(own_send, st.lists(st.one_of(spend_out, spend_out, st.just({'op': 'new_key'})), min_size=1,
+                                          max_size=3),
+                       st.sampled_from(['store', 'send'])).map(
+        lambda t: [t[0]] + t[1] + [{'op': 'resend_object', 'pick': 0, 'how': t[2]}])
     ops = st.one_of(
         st.tuples(st.lists(fund, min_size=1, max_size=2), accounts, tail).map(lambda t: t[0] + t[1] + t[2]),
+        st.tuples(st.lists(fund, min_size=1, max_size=2), resend, tail).map(lambda t: t[0] + t[1] + t[2]),
+        st.tuples(st.lists(fund, min_size=1, max_size=2), pay_other, tail).map(lambda t: t[0] + t[1] + t[2]),
         st.tuples(st.lists(fund, min_size=1, max_size=3), tail).map(lambda t: t[0] + t[1]),
         st.tuples(st.lists(fund, min_size=1, max_size=2), sibling, tail).map(lambda t: t[0] + t[1] + t[2]))
     return st.fixed_dictionaries({'kind': st.just('history'), 'wallet': wallet, 'ops': ops,
